@@ -62,6 +62,135 @@ def shapes_by_neighbour(ttn):
     return out
 
 
+# ---------------------------------------------------------------------------------------------------------------------------
+# [conditioning / scaling family]  The property quantifies over ALL tensors: badly conditioned (but full rank), graded, badly
+# scaled, exactly zero ones, physical dimensions much larger than the bonds (tall matricisations) are members of the input
+# space. The tensors of this family are built from a PLAN (drawn from the case seed): the matricisation (all other legs) x
+# (one chosen leg, mostly a virtual one) is an isometry times a small factor T of prescribed structure, times 10**exp.
+class _Leg(int):
+    """a leg dimension that remembers whether it is a bond ('b') or an open leg ('o') through gen_build_on"""
+    def __new__(cls, d, kind):
+        x = int.__new__(cls, d)
+        x.kind = kind
+        return x
+
+
+# largest accepted deviation of M^H M from the identity (0/1 projector in the shape-keeping mode). Householder QR delivers ~1e-15
+# whatever the conditioning of the input; the bound (about 5000 machine epsilons) leaves three orders of magnitude
+ISO_TOL = 1e-12
+
+COND_STRUCTS = ("svd", "svd", "svd", "tri", "tri", "kahan", "kahan", "cols", "cols", "rows", "gauss", "zero")
+
+
+def cond_plan(rng, shape, virt):
+    """plan of one tensor: the leg w.r.t. which it is badly conditioned (80%: a virtual leg of dimension >= 2), the structure of the
+    small factor, log10 of the grading (uniform in [0, 15]: from perfectly conditioned to numerically rank deficient), an overall
+    scale 10**exp (half of the tensors: exp = 0, the others uniform in [-25, 25]), real or complex entries"""
+    vb = [k for k in virt if shape[k] >= 2]
+    va = [k for k, d in enumerate(shape) if d >= 2]
+    axis = rng.choice(vb) if (vb and rng.random() < 0.8) else (rng.choice(va) if va else None)
+    struct = rng.choice(COND_STRUCTS)
+    if struct == "zero" and rng.random() < 0.5:
+        struct = "svd"
+    return {"axis": axis, "struct": struct, "logk": rng.uniform(0.0, 15.0), "exp": 0.0 if rng.random() < 0.5 else rng.uniform(-25.0, 25.0),
+            "real": rng.random() < 0.25, "seed": rng.randrange(2 ** 31)}
+
+
+def cond_tensor(shape, plan):
+    """the tensor of a plan (see cond_plan); deterministic in the plan"""
+    shape = tuple(int(d) for d in shape)
+    rs = np.random.RandomState(plan["seed"])
+    real = plan["real"]
+
+    def gauss(*sh):
+        g = rs.standard_normal(sh)
+        return g if real else g + 1j * rs.standard_normal(sh)
+    scale = 10.0 ** plan["exp"]
+    struct = plan["struct"]
+    if struct == "zero":
+        return np.zeros(shape, dtype=float if real else complex)
+    a = plan["axis"]
+    if a is None or struct == "gauss" or not shape:
+        return gauss(*shape) * scale
+    cols = shape[a]
+    rows = int(np.prod(shape)) // cols
+    n = min(rows, cols)
+    lk = plan["logk"]
+    grade = 10.0 ** (-lk * np.arange(n) / max(1, n - 1))            # 1 ... 10**-logk
+    if struct == "svd":
+        sv = np.sort(np.concatenate([[0.0, 1.0][:n], rs.rand(max(0, n - 2))]))
+        w, _ = np.linalg.qr(gauss(n, n))
+        t = np.diag(10.0 ** (-lk * sv)) @ w.conj().T
+    elif struct == "tri":
+        t = np.diag(grade).astype(float if real else complex) + np.diag(grade) @ np.triu(0.7 * gauss(n, n), 1)
+    elif struct == "kahan":
+        s = 10.0 ** (-lk / max(1, n - 1))
+        c = np.sqrt(max(0.0, 1.0 - s * s))
+        t = np.diag(s ** np.arange(n)) @ (np.eye(n) - c * np.triu(np.ones((n, n)), 1))
+        if not real:
+            t = t.astype(complex)
+    elif struct == "cols":
+        t = gauss(n, n) @ np.diag(grade)
+    else:       # "rows"
+        t = np.diag(grade) @ gauss(n, n)
+    if rows >= cols:
+        u, _ = np.linalg.qr(gauss(rows, cols))
+        m = u @ t
+    else:
+        v, _ = np.linalg.qr(gauss(cols, rows))
+        m = t @ v.conj().T
+    rest = shape[:a] + shape[a + 1:]
+    x = np.moveaxis(m.reshape(rest + (cols,)), -1, a)
+    return np.ascontiguousarray(x) * scale
+
+
+class CondDriver(Driver):
+    """Driver whose next tensor follows `self.plan` (a cond_plan; None: the ordinary random tensor)"""
+    plan = None
+
+    def _rand(self, shape):
+        if self.plan is None:
+            return Driver._rand(self, shape)
+        pl, self.plan = self.plan, None
+        return cond_tensor(shape, pl)
+
+
+def gen_build_cond(rng, nnodes):
+    """build ops of the conditioning family + for every op the positions of the virtual legs in the tensor handed over.
+    One open leg per node; open dimensions up to 32, bonds up to 8 (so the matricisation of a node w.r.t. one bond is often tall:
+    >= 4 x as many rows as columns); the dense state has at most 4096 entries and every tensor at most 4096"""
+    parents = [None] + [rng.randrange(0, i) for i in range(1, nnodes)]
+    bond = {i: rng.choice((1, 2, 2, 3, 3, 4, 4, 6, 8)) for i in range(1, nnodes)}
+    od = [rng.choice((1, 2, 3, 4, 8, 8, 12, 16, 16, 32, 32)) for _ in range(nnodes)]
+
+    def tsize(i):
+        s = od[i] * (bond[i] if i else 1)
+        for j in range(1, nnodes):
+            if parents[j] == i:
+                s *= bond[j]
+        return s
+    smaller = {32: 16, 16: 8, 12: 8, 8: 4, 4: 3, 3: 2, 2: 1, 6: 4}
+    for _ in range(200):
+        big = [i for i in range(nnodes) if tsize(i) > 4096]
+        if int(np.prod(od)) > 4096:
+            big.append(max(range(nnodes), key=lambda i: od[i]))
+        if not big:
+            break
+        i = big[0]
+        if od[i] > 1 and (int(np.prod(od)) > 4096 or rng.random() < 0.5):
+            od[i] = smaller[od[i]]
+        else:
+            js = [j for j in range(1, nnodes) if (j == i or parents[j] == i) and bond[j] > 1]
+            j = max(js, key=lambda j: bond[j])
+            bond[j] = smaller[bond[j]]
+    ops = gen_build_on(rng, parents, [[_Leg(d, "o")] for d in od], {i: _Leg(b, "b") for i, b in bond.items()})
+    virt = []
+    for o in ops:
+        virt.append([k for k, d in enumerate(o[2]) if d.kind == "b"])
+        o[2] = [int(d) for d in o[2]]
+    return ops, virt
+
+
 class C03(Prop):
     id = "C03"
     rule = ("random trees (1-7 nodes; FULL mode limited to <=4 nodes with dims<=2 to bound growth) built with shuffled legs, bond/physical "
@@ -69,14 +198,24 @@ class C03(Prop):
             "form at a random node / centre moves, random split mode; plus 25% additional cases (2-7 nodes) with SHARED ARRAYS: all nodes whose tensors "
             "have equal shapes are handed the very same ndarray object (`[leaf] * n`, translation-invariant states), half of them on the random "
             "dimensions above, half with one bond and one physical dimension for the whole tree (all leaves one object), same operations and the "
-            "same dense before/after oracle (reference contracted from a deep copy before the first operation); non-trivial = at least 2 nodes; "
-            "distinct by seed content")
+            "same dense before/after oracle (reference contracted from a deep copy before the first operation); plus 33% additional cases (1-5 nodes) of "
+            "the CONDITIONING / SCALING family: one open leg per node of dimension in {1,2,3,4,8,12,16,32}, bonds in {1,2,3,4,6,8} (dense state <= 4096 "
+            "entries), every tensor = (isometry x small factor T) w.r.t. one leg (80%: a virtual leg of dimension >= 2) with T one of: prescribed "
+            "singular values, graded upper triangular with random off-diagonal entries, Kahan-type, column-graded Gaussian, row-graded Gaussian, plain "
+            "Gaussian, exactly zero tensor; grading 10**-u with u uniform in [0,15] (perfectly conditioned ... badly conditioned but full rank ... "
+            "numerically rank deficient); half of the tensors scaled by 10**e, e uniform in [-25,25]; 25% real; replaced tensors (scramble) follow "
+            "the same plans; same operations (no structural edits); oracles there additionally RELATIVE to the scale of the reference (state: largest "
+            "deviation <= 1e-9 x largest entry of the reference, zero state stays zero; norms: relative 1e-9). In all families every non-centre tensor "
+            "has to be an isometry (KEEP: 0/1 projector) toward the centre up to 1e-12 (Householder QR: ~1e-15 whatever the conditioning). "
+            "non-trivial = at least 2 nodes; distinct by seed content")
     clauses = [
         ("F", "the QR leg specifications built for a node and any neighbour partition the node's legs; REDUCED bond <= both sides; KEEP bond = the old bond dimension (Props C03_*)"),
         ("F", "canonical_form records the requested centre; iso_check soundness: a store that passes it has, at every non-centre node, exactly one QR-Q atom whose new bond is the leg toward the centre"),
         ("F", "canonical_form establishes iso_check and move_orthogonalization_center preserves it, on every well-formed tree store, every centre, every mode (C03_canonical_form_iso, C03_move_center_iso); a move ends at the requested node (C03_move_center_reaches); distance_to_node computes tree distances; path_from_to is the tree path"),
         ("I", "per explored instance: the theorems' hypotheses (build sequence satisfies ops_okb, store wfb, temporary identifier fresh) and, as a cross-check, iso_check itself, evaluated by vm_compute"),
-        ("O", "Q of a QR call is an isometry from its bond (KEEP: zero-padded partial isometry) — LAPACK contract, validated numerically at every node"),
+        ("O", "Q of a QR call is an isometry from its bond (KEEP: zero-padded partial isometry) — LAPACK contract, validated numerically at every node "
+              "(deviation of M^H M from the identity / a 0-1 projector <= 1e-12), including badly conditioned full-rank, graded, badly scaled and "
+              "exactly zero tensors and tall matricisations (conditioning / scaling family)"),
         ("O", "the represented state is unchanged: one step split_qr_contract_r_to_neighbour, canonical_form, move_orthogonalization_center, "
               "ensure_orth_center and every sequence of them preserve the value of the whole network (net_value, any commutative semiring, every "
               "assignment of the open wires; open wires permuted only; the extended store invariant wfsb preserved), in all three modes, on every "
@@ -112,6 +251,12 @@ class C03(Prop):
         ns = ctx.scale(30, 300) * budget_scale
         cases += [{"seed": rng.randrange(10 ** 9), "nnodes": rng.choice([2, 3, 3, 4, 4, 5, 6, 7]), "nops": rng.randrange(1, 6),
                    "lowrank": j % 4 == 0, "share": "uniform" if j % 2 else "random"} for j in range(ns)]
+        # [conditioning / scaling] ADDITIONAL cases (the ones above are unchanged): tensors that are badly conditioned w.r.t. one leg
+        # (grading 1 .. 1e-15, several structures), badly scaled (10**+-25 per tensor), exactly zero; open dimensions up to 32 with
+        # bonds up to 8 (tall matricisations); see cond_plan / cond_tensor / gen_build_cond
+        nc = ctx.scale(50, 800) * budget_scale
+        cases += [{"seed": rng.randrange(10 ** 9), "nnodes": rng.choice([1, 2, 2, 3, 3, 4, 4, 5]), "nops": rng.randrange(1, 6),
+                   "lowrank": False, "cond": True} for j in range(nc)]
         return cases
 
     def nontrivial(self, case):
@@ -125,6 +270,8 @@ class C03(Prop):
         ctr = getattr(self, "_contract", None)
         if ctr:
             c["recorded QR definitions with the kernel contract Q.R = A validated numerically"] = ctr[1]
+        if getattr(self, "_maxdefect", None) is not None:
+            c[f"largest accepted isometry defect (tolerance {ISO_TOL:g})"] = float(f"{self._maxdefect:.2e}")
         return dict(c)
 
     def _run_case(self, case):
@@ -133,6 +280,11 @@ class C03(Prop):
         intstate = case.get("intstate", case["seed"] % 5 == 0)
         drv = Driver(ttn_cls=TTNS, nprs=np.random.RandomState(case["seed"] % (2 ** 31)), lowrank=0.5 if case.get("lowrank") else 0.0,
                      ints=3 if intstate else None, complex_=not intstate, intdtype=intstate, share=bool(case.get("share")))
+        cond = bool(case.get("cond"))
+        prng = random.Random(case["seed"] + 11)      # plans of the conditioning family
+        virt = None
+        if cond:
+            drv = CondDriver(ttn_cls=TTNS, nprs=np.random.RandomState(case["seed"] % (2 ** 31)))
         small = case["nnodes"] <= 4
         dim_choices = (1, 2, 2) if small else (1, 2, 2, 3)
         if case.get("share") == "uniform":
@@ -141,16 +293,22 @@ class C03(Prop):
             parents = [None] + [rng.randrange(0, i) for i in range(1, nn)]
             bdim, pdim = rng.choice(dim_choices), rng.choice(dim_choices)
             ops = gen_build_on(rng, parents, [[pdim] for _ in range(nn)], {i: bdim for i in range(1, nn)})
+        elif cond:
+            ops, virt = gen_build_cond(rng, case["nnodes"])
         else:
             ops = gen_build(rng, case["nnodes"], nopen_choices=(1,), dim_choices=dim_choices)
         if case.get("ops"):
             ops = case["ops"]
+            virt = None
         steps = []
         viol = None
         applied = []
         for op in ops:
             if op[0] not in ("add_root", "add_child"):
                 break          # explicit case["ops"]: everything after the build goes through the judged loop below
+            if cond and virt is not None:
+                drv.plan = cond_plan(prng, op[2], virt[len(applied)])
+                self._cond_stats(op[2], drv.plan, virt[len(applied)])
             ok, err = drv.apply(op)
             applied.append(op)
             steps.append({"ok": ok, "err": err, "snap": snapshot(drv.ttn), "raws": {k: np.array(v) for k, v in drv.ttn._tensors.data.items()},
@@ -196,7 +354,7 @@ class C03(Prop):
         keep_seen = False
         # structural edits between the canonical-form operations (every third case): a contraction, a split (QR / SVD), an inserted
         # identity or a renaming changes the tree; the next operation is then a full canonical_form on the CURRENT tree
-        edits = (not case.get("ops")) and case.get("edits", case["seed"] % 3 == 0)
+        edits = (not case.get("ops")) and (not cond) and case.get("edits", case["seed"] % 3 == 0)
         erng = random.Random(case["seed"] + 5)
         fresh_ctr = [0]
 
@@ -242,7 +400,12 @@ class C03(Prop):
                 need_canon = False
             keep_seen = keep_seen or op[2] == "keep"
             shapes_before = shapes_by_neighbour(drv.ttn)
+            if cond and op[0] == "scramble":
+                nd_ = drv.ttn.nodes[op[1]]
+                drv.plan = cond_plan(prng, list(nd_.shape), list(range(nd_.nneighbours())))
+                self._cond_stats(list(nd_.shape), drv.plan, list(range(nd_.nneighbours())))
             ok, err = drv.apply(op)
+            drv.plan = None
             if op[0] == "scramble":
                 applied.append(op)
                 t = drv.ttn
@@ -277,10 +440,18 @@ class C03(Prop):
             if d.shape != dense0.shape or not np.allclose(d, dense0, rtol=1e-9, atol=1e-9 * scale):
                 viol = f"after {op}: represented state changed"
                 continue
+            if cond:
+                # badly scaled states: the tolerance is RELATIVE to the largest entry of the reference (an exactly zero state stays zero)
+                ref = float(np.max(np.abs(dense0))) if dense0.size else 0.0
+                dev = float(np.max(np.abs(d - dense0))) if dense0.size else 0.0
+                if not np.all(np.isfinite(d)) or dev > 1e-9 * ref:
+                    viol = f"after {op}: represented state changed (largest deviation {dev:.3e}, largest entry of the reference {ref:.3e})"
+                    continue
             # tensors off the path of a move keep the attribute an earlier operation gave them:
             # once a shape-keeping operation has happened they may be zero-padded partial isometries
             defect = isometry_defects(t, want, keep_seen)
-            if defect > 1e-8:
+            self._maxdefect = max(getattr(self, "_maxdefect", 0.0), defect if defect <= ISO_TOL else 0.0)
+            if not defect <= ISO_TOL:
                 viol = f"after {op}: some tensor is not a{' partial' if keep_seen else 'n'} isometry toward the centre (defect {defect:.2e}; partial isometries accepted: {keep_seen})"
                 continue
             if op[2] == "keep" and shapes_by_neighbour(t) != shapes_before:
@@ -294,10 +465,33 @@ class C03(Prop):
             ful2 = copy.deepcopy(t).scalar_product(use_orthogonal_center=False)
             if abs(loc - full) > 1e-8 * max(1.0, abs(full)) or abs(ful2 - full) > 1e-8 * max(1.0, abs(full)):
                 viol = f"after {op}: norm from the centre tensor {loc} / by contraction {ful2} differs from dense {full}"
+            elif cond and not (abs(loc - full) <= 1e-9 * abs(full) and abs(ful2 - full) <= 1e-9 * abs(full)):
+                viol = f"after {op}: norm from the centre tensor {loc} / by contraction {ful2} differs from dense {full} (relative tolerance 1e-9)"
         return {"ops": applied, "steps": steps, "atoms": drv.atoms, "viol": viol}
+
+    def _cond_stats(self, shape, plan, virt):
+        st = self._stats
+        st["conditioning family: tensors"] += 1
+        a = plan["axis"]
+        if plan["struct"] == "zero":
+            st["conditioning family: exactly zero tensors"] += 1
+            return
+        if plan["exp"] != 0.0:
+            st["conditioning family: tensors scaled by 10**e, |e| <= 25"] += 1
+        if a is None or plan["struct"] == "gauss":
+            return
+        cols = int(shape[a])
+        rows = int(np.prod([int(d) for d in shape])) // cols
+        lk = plan["logk"]
+        st[f"conditioning family: grading 1e{3 * int(lk // 3)}..1e{3 * int(lk // 3) + 3}"] += 1
+        if a in virt:
+            st["conditioning family: graded w.r.t. a virtual leg"] += 1
+            if rows >= 4 * cols:
+                st["conditioning family: graded w.r.t. a virtual leg, matricisation tall (rows >= 4 x bond)"] += 1
 
     def impl(self, ctx, cases):
         self._stats = Counter()
+        self._maxdefect = 0.0
         out = []
         for c in cases:
             try:
